@@ -617,6 +617,7 @@ func addCase(w *CaseWriter, s *Spec, r *Run) {
 	if isNewton(s.Routine) || isNewtonMin(s.Routine) {
 		w.Count("newton_mode:" + s.Mode)
 		w.CountN("events:dir", nd)
+		countDirections(w, s, r)
 		if r.Kind == 3 {
 			m := r.PanicMsg
 			if len(m) > 48 {
